@@ -223,6 +223,21 @@ CHECKS["C19"] = dict(
     technique="TLC trace validation of repeated opens of closed files and crash images against a TLA+ convergence contract",
 )
 
+CHECKS["C04"] = dict(
+    category="fault_enumeration",
+    text="Fault enumeration judged by TLC. On closed files with two signals (f32/u8, i16/u1, f64/u4), two summary levels, annotations, UTC and user data: EVERY "
+         "single-bit flip of the file (exhaustive: ~68k faults per file), plus sampled 2-/3-bit flips and bursts <= 32 bits inside one protected region, zeroed "
+         "ranges and flips in two regions. Each altered copy is opened by the real reader in a child process under a watchdog and dumped (definitions, "
+         "lengths, all samples as candidate runs, annotations, UTC, user data); TLC judges each FaultObs event with JlsCorrupt.tla against the content written: "
+         "every observation is an error, or exactly the original, or - only if the open repaired the file - a genuine prefix (C03 semantics); never altered "
+         "content as valid, never a crash or hang. CrcHD.tla decides exhaustively, by GF(2)-linearity on the single-bit syndromes derived from the polynomial, "
+         "that every alteration of <= 3 bits within a protected region of 28+4 / 132+4 (thorough 300+4) bytes changes the CRC.",
+    design_ref="DESIGN.md section 6 C04, section 12",
+    note="Trusted: TLC, the driver's projections, the crash/fault child-process harness. Bursts <= 32 bits rely on the standard CRC burst theorem (sampled, not enumerated). "
+         "Statistics of altered files are not dumped.",
+    technique="exhaustive single-bit + sampled multi-bit fault enumeration on real files, every outcome judged by TLC against a TLA+ contract; CRC Hamming-distance by TLC on syndromes",
+)
+
 NOT_YET = {}
 
 
